@@ -405,6 +405,22 @@ pub fn bind_pipelined(loud: &SeqCfg, depth: usize, threads: usize) -> (u64, Vec<
         tuples.extend(next.iter().cloned());
         level = next;
     }
+    // one level deeper around every request that exceeds the item limit: what precedes and what
+    // follows an oversized request in the same segment
+    let big: Vec<u16> = usable
+        .iter()
+        .copied()
+        .filter(|c| matches!(&cfg_b.alphabet[*c as usize], crate::cmd::Cmd::Store { value, .. } if value.len() as u32 + 16 > cfg_b.sut.item_limit))
+        .collect();
+    if depth < 3 {
+        for a in &usable {
+            for m in &big {
+                for z in &usable {
+                    tuples.push(vec![*a, *m, *z]);
+                }
+            }
+        }
+    }
     enum Step {
         Tick(u64),
         Req(Vec<u8>, Vec<u8>),
